@@ -3,7 +3,7 @@
     Proofs/Poly_Proofs.v.  Carrier: Coq reals. *)
 From Coq Require Import Reals QArith Qreals List ZArith.
 From Coquelicot Require Import Coquelicot.
-From SB Require Import Base.Num Gen.Generated Model.Poly Spec.BezierSpec Model.RootCert Model.Touch Proofs.Poly_Proofs Proofs.RootCert_Proofs Proofs.F32Poly_Proofs Proofs.Touch_Proofs.
+From SB Require Import Base.Num Gen.Generated Model.Poly Spec.BezierSpec Model.RootCert Model.Touch Model.Solve32 Proofs.Poly_Proofs Proofs.RootCert_Proofs Proofs.F32Poly_Proofs Proofs.Touch_Proofs Proofs.Solve32_Proofs.
 Import ListNotations.
 Local Open Scope R_scope.
 
@@ -162,4 +162,46 @@ Example touches_linear_example :
   let a := (13421773 # 134217728)%Q in
   (F32.rnd32 a == a)%Q /\ Qltb (Qabs' a) F32.FLT_MIN = false /\
   match Touch.touches_linear 1 a (Touch.eval_linear_f32 1 a 1) with Some u => (1 < u)%Q | None => False end.
+Proof. vm_compute. repeat split; reflexivity. Qed.
+
+(** ---- the closed forms for at most three significant coefficients, in binary32 ---- *)
+(** [Model.Solve32.solve32] transcribes sb_i_poly_count_significant_coeffs and
+    sb_i_poly_solve_1d/_2d/_3d operation by operation (each followed by rnd32,
+    sqrtf correctly rounded); the correspondence check compares its roots with
+    sb_poly_solve bit for bit.  About that model, for EVERY input: *)
+Theorem solve32_at_most_two_roots : forall cs y rs, Solve32.solve32 cs y = Some rs -> (length rs <= 2)%nat.
+Proof. exact Solve32_Proofs.solve32_at_most_two. Qed.
+Print Assumptions solve32_at_most_two_roots.
+
+(** the straight-line solver returns the correctly rounded root of c1 x + (c0 (-) y) *)
+Theorem solve_linear32_correctly_rounded : forall c0 c1 y, Solve32.is_zero32 c1 = false ->
+  Solve32.solve_linear32 c0 c1 y = [F32.rnd32 (- (F32.fsub c0 y) / c1)%Q].
+Proof. exact Solve32_Proofs.solve_linear32_rounded. Qed.
+Print Assumptions solve_linear32_correctly_rounded.
+
+(** the sign of the COMPUTED discriminant decides the number of roots: one (|d| < FLT_MIN), two, none *)
+Theorem quadratic32_root_count : forall c0 c1 c2 y, Solve32.is_zero32 c2 = false ->
+  let d := Solve32_Proofs.disc32 c0 c1 c2 y in
+  (Solve32.is_zero32 d = true -> length (Solve32.solve_quadratic32 c0 c1 c2 y) = 1%nat) /\
+  (Solve32.is_zero32 d = false -> (0 < d)%Q -> length (Solve32.solve_quadratic32 c0 c1 c2 y) = 2%nat) /\
+  (Solve32.is_zero32 d = false -> (d <= 0)%Q -> Solve32.solve_quadratic32 c0 c1 c2 y = []).
+Proof. exact Solve32_Proofs.quadratic32_trichotomy. Qed.
+Print Assumptions quadratic32_root_count.
+
+(** Vieta: whenever two roots are returned (and not both are zero), their product is (c0 (-) y) / c2 up to
+    two roundings - whatever cancellation happens in the discriminant.  This is what the cancellation-free
+    form (q / a and c / q for the one sum q that does not cancel) buys; the textbook form
+    (-b +- sqrt d) / 2a does not have this property in binary32. *)
+Theorem quadratic32_vieta : forall c0 c1 c2 y r0 r1, Solve32.is_zero32 c2 = false ->
+  Solve32.solve_quadratic32 c0 c1 c2 y = [r0; r1] -> ~ (r0 == 0 /\ r1 == 0)%Q ->
+  (Qabs.Qabs (r0 * r1 - F32.fsub c0 y / c2) <=
+   (2 * Solve32_Proofs.eps + Solve32_Proofs.eps * Solve32_Proofs.eps) * Qabs.Qabs (F32.fsub c0 y / c2))%Q.
+Proof. exact Solve32_Proofs.quadratic32_vieta. Qed.
+Print Assumptions quadratic32_vieta.
+
+(** not vacuous: x^2 - 3x + 2 and 0.001 x^2 + 1000 x + 1 (4ac negligible next to b^2: the small root survives) *)
+Example solve32_example :
+  match Solve32.solve32 [2; -3; 1]%Q 0 with Some [r0; r1] => (r0 == 1 /\ r1 == 2)%Q | _ => False end /\
+  match Solve32.solve32 [1; 1000; F32.rnd32 (1 # 1000)]%Q 0 with
+  | Some [r0; r1] => (r0 < -999999 /\ -(1001 # 1000000) < r1 /\ r1 < -(999 # 1000000))%Q | _ => False end.
 Proof. vm_compute. repeat split; reflexivity. Qed.
